@@ -19,7 +19,10 @@ namespace ShpanVerif.Drive.C06
 open ShpanVerif.Util ShpanVerif.Model ShpanVerif.Drive.Conc
 
 def expectDel (c : Case) : List Nat :=
-  if c.op == "ccons" || c.op == "buf" then List.range c.n else (List.range c.n).map (· + 1000)
+  if c.op == "ccons" || c.op == "buf" then List.range c.n
+  -- `ptr=1`: the mapper returns a nil pointer for elements i with i % 3 = 1; a nil result is a result (shown as 999)
+  else if c.kv.flag "ptr" then sortNats ((List.range c.n).map (fun i => if i % 3 == 1 then 999 else i + 1000))
+  else (List.range c.n).map (· + 1000)
 
 /-- which elements a callback gated / counted by the harness must have seen (Buffered alone has no callback) -/
 def expectCalls (c : Case) : List Nat := if c.op == "buf" then [] else List.range c.n
@@ -37,7 +40,7 @@ def model (c : Case) (o : Obs) : String :=
   if !c.failureFree then "C06 cases are failure-free"
   else
     let maxEcho := if o.maxin ≤ min c.c c.n && (c.n == 0 || 1 ≤ o.maxin) then toString o.maxin else s!"<={min c.c c.n}"
-    if c.sync && c.op == "cmap" then
+    if c.sync && c.op == "cmap" && !c.kv.flag "ptr" then
       let cfg : ConcMap.Cfg := { n := c.n, c := c.c }
       let r := cmReplay cfg c.sg c.cg o.trace
       match r.bad with
